@@ -332,3 +332,13 @@ type symRef struct {
 	elems []value
 	idx   sym
 }
+
+// fallThrough is returned by an intrinsic that declines a call: the real
+// body is interpreted instead.
+type fallThrough struct{}
+
+// symDecimal is the decimal text of a symbolic integer (verif.Itoa): an
+// opaque string that only strconv.ParseInt/Atoi can read back.
+type symDecimal struct {
+	s sym
+}
